@@ -217,3 +217,45 @@ def rule_progress(F, rep, rid, pred, floor, where_txt):
                           '%s calls itself with its own arguments unchanged: the traversal never leaves the node it started from (unbounded recursion)' % g.short, 'arguments change')
     if n < floor:
         raise AnalysisBroken('%s: only %d self-recursive calls found in %s (%d confirmed)' % (rid, n, where_txt, floor))
+
+
+def stack_discipline(F, f):
+    """For ANY non-const vector reference parameter on which f both pushes and pops (a stack shared with callers/callees): every CFG path
+    from a push_back to the exit passes a pop_back on the same parameter, or leaves through a literal failure return.
+    Yields (push node, parameter name, ok, detail)."""
+    from issues import must_pass
+    conts = [p for p in f.params if 'std::vector<' in p['t'] and p['t'].rstrip().endswith('&') and 'const' not in p['t'].split('std::vector')[0]]
+    for p in conts:
+        pushes = [c for c in f.walk() if c.get('k') == 'Call' and c.get('mc') and c.get('fn') in ('push_back', 'emplace_back') and c['c'][0].get('k') == 'Ref' and c['c'][0].get('d') == p['d']]
+        pops = [c for c in f.walk() if c.get('k') == 'Call' and c.get('mc') and c.get('fn') == 'pop_back' and c['c'][0].get('k') == 'Ref' and c['c'][0].get('d') == p['d']]
+        if not pushes or not pops:
+            continue
+        cfg = f.cfg()
+        fails = [r for r in f.walk() if r.get('k') == 'Return' and r.get('c') and (render(r['c'][0]) in ('false', 'nullptr') or r['c'][0].get('k') == 'Bool')]
+        through = [x['i'] for x in pops] + [x['i'] for x in fails]
+        for c in pushes:
+            yield c, p['n'], must_pass(cfg, c, through), '%d pop_back, %d literal returns' % (len(pops), len(fails))
+
+
+STACK_EXEMPT = {
+    ('recordVariableEquivalences', 'indexStack'): 'correlated conditions the path-insensitive rule cannot see: the push happens in the first iteration of the inner loop (j == 0), which runs iff equivalentVariableCount() > 0, the very condition of the pop',
+}
+
+
+def rule_stack_discipline(F, rep, rid, pred, floor, where_txt):
+    from facts import AnalysisBroken
+    rep.rule(rid, 'a vector handed down by reference on which a function of %s both pushes and pops is a stack shared with its callers: every path from a push_back to the exit pops it again (or leaves through a literal failure return that unwinds the whole walk); '
+                  'a leaked entry is seen by the siblings (false cycle reports, or a later back() on the companion stack that is empty)' % where_txt)
+    n = 0
+    for g in F.funcs.values():
+        if not pred(g):
+            continue
+        for c, name, ok, detail in stack_discipline(F, g):
+            key = '%s|%s|push#%d' % (g.short.split('::')[-1], name, sum(1 for x in g.walk() if x.get('k') == 'Call' and x.get('fn') in ('push_back', 'emplace_back') and x.get('l', 0) < c.get('l', 0)))
+            if not ok and (g.name, name) in STACK_EXEMPT:
+                rep.exempt(rid, key, STACK_EXEMPT[(g.name, name)])
+                continue
+            n += 1
+            rep.check(ok, rid, key, g.where(c), '%s: after `%s` some path reaches the exit without %s.pop_back() (%s)' % (g.short, render(c)[:50], name, detail), 'popped on every path (%s)' % detail)
+    if n < floor:
+        raise AnalysisBroken('%s: only %d pushes on shared stacks found in %s (%d confirmed)' % (rid, n, where_txt, floor))
